@@ -202,13 +202,16 @@ func (s *Solver) incremental(body, getv string) (string, map[string]uint64) {
 	t0 := time.Now()
 	defer func() { s.stats.addBackend("z3-incremental", time.Since(t0)) }()
 	atomic.AddInt64(&s.stats.IncQueries, 1)
-	out, err := s.ask("(push)\n" + body + "(check-sat)\n")
+	// (reset) rather than push/pop: after a reset z3 decides the first
+	// check-sat with its default (non-incremental) tactic, which is orders of
+	// magnitude faster on multiplication than the incremental core, and the
+	// process start-up cost is still saved.
+	out, err := s.ask(fmt.Sprintf("(reset)\n(set-option :timeout %d)\n(set-option :model.completion true)\n", s.incMs) + body + "(check-sat)\n")
 	if err != nil {
 		s.restart()
 		return "unknown", nil
 	}
 	if strings.Contains(out, "(error") {
-		s.ask("(pop)\n")
 		return "unknown", nil
 	}
 	res := firstWord(out)
@@ -224,9 +227,6 @@ func (s *Solver) incremental(body, getv string) (string, map[string]uint64) {
 		} else {
 			model = map[string]uint64{}
 		}
-	}
-	if _, err := s.ask("(pop)\n"); err != nil {
-		s.restart()
 	}
 	if res == "timeout" {
 		res = "unknown"
